@@ -227,14 +227,19 @@ def run(ctx):
         ctx.note("protocol document message list not found: cross-check skipped")
     else:
         c2s, s2c = dm
-        ok = set(tab) == c2s
-        ctx.ob("R17.table", "dispatched types = documented C->S commands", ok, "",
-               "" if ok else "undocumented %s / unimplemented %s" % (
-                   sorted(set(tab) - c2s), sorted(c2s - set(tab))))
-        ok = sent_types == s2c
-        ctx.ob("R17.table", "frame types sent = documented S->C messages", ok, "",
-               "" if ok else "undocumented %s / never sent %s" % (
-                   sorted(sent_types - s2c), sorted(s2c - sent_types)))
+        # every documented command is implemented and every documented frame
+        # is sent; a command / frame the document does not list yet is an
+        # addition, not a breach of the discipline (its handler is still
+        # subject to every other rule), and is only noted
+        ok = c2s <= set(tab)
+        ctx.ob("R17.table", "every documented C->S command has a dispatch arm", ok, "",
+               "" if ok else "unimplemented %s" % sorted(c2s - set(tab)))
+        ok = s2c <= sent_types
+        ctx.ob("R17.table", "every documented S->C message is sent somewhere", ok, "",
+               "" if ok else "never sent %s" % sorted(s2c - sent_types))
+        if set(tab) - c2s or sent_types - s2c:
+            ctx.note("not in the protocol document: commands %s, frames %s" % (
+                sorted(set(tab) - c2s), sorted(sent_types - s2c)))
     # -- envelope
     nsend = 0
     for en in model.runtime_entries():
@@ -251,6 +256,8 @@ def run(ctx):
     ctx.require("R17.env", nsend, 12, "frame emissions")
     # -- errors
     nerr = 0
+    from ..e5 import relevant_attrs
+    conn_relevant = relevant_attrs(model, "WebSocketServer")
     for p in paths:
         raises = [e for e, _ in all_events(p, ("raise",)) if e["cls"] == "Error"]
         if not raises:
@@ -265,9 +272,12 @@ def run(ctx):
         label = "%s: Error(%s)" % (handler_of(p) or "onMessage",
                                    msgarg[1] if msgarg and is_const(msgarg) else "?")
         if not exempt:
-            effects = [e for e in evs[:idx] if e["k"] in EFFECT_KINDS or
+            # connection attributes that nothing decides on and no statement or
+            # frame carries (counters kept for the log) are not state
+            effects = [e for e in evs[:idx] if (e["k"] in EFFECT_KINDS and not (
+                           e["k"] == "sql" and not e["stmt"].mutating)) or
                        (e["k"] == "setattr" and e["obj"][0] == "obj" and
-                        e["obj"][1] == "WebSocketServer")]
+                        e["obj"][1] == "WebSocketServer" and e["attr"] in conn_relevant)]
             ok = not effects
             ctx.ob("R17.err", label + " has no effect", ok, r,
                    "" if ok else "before the error is raised: %s" % construct_of(effects[0])
